@@ -5,10 +5,10 @@
 
 enum SrcFamily {
   SRC_SILENCE = 0, SRC_DC, SRC_TONES, SRC_SWEEP, SRC_VOICED, SRC_NOISE, SRC_CLICKS, SRC_SQUARE,
-  SRC_STEREO, SRC_NONFINITE, SRC_DENORMAL, SRC_DITHER, SRC_MUSIC, SRC_NFAM
+  SRC_STEREO, SRC_NONFINITE, SRC_DENORMAL, SRC_DITHER, SRC_MUSIC, SRC_STEADYVOICED, SRC_NFAM
 };
 static const char *const kSrcName[] = {"silence", "dc", "tones", "sweep", "voiced", "noise", "clicks", "square",
-                                       "stereo", "nonfinite", "denormal", "dither", "music"};
+                                       "stereo", "nonfinite", "denormal", "dither", "music", "steadyvoiced"};
 
 struct Source {
   int fam = SRC_SILENCE;
@@ -86,6 +86,14 @@ static inline float src_sample(const Source &s, int fs, int ch, int64_t n) {
     case SRC_DITHER: {  // +-1 LSB (16-bit) of dither around zero
       float v = noise_at(s.seed, n, ch);
       return v > 0.5f ? 1.f / 32768.f : (v < -0.5f ? -1.f / 32768.f : 0.f);
+    }
+    case SRC_STEADYVOICED: {
+      // speech-like harmonic source at constant level (vibrato + a little breath noise), no envelope and no pauses
+      double pitch = f0 * (1.0 + 0.05 * sin(TWO_PI * 3.0 * t));
+      double ph = TWO_PI * pitch * t, v = 0;
+      for (int h = 1; h <= 12; h++) v += sin(h * ph + 0.3 * h * h) / h;
+      v += 0.05 * noise_at(s.seed, n, ch);
+      return (float)(A * v / 2.5);
     }
     case SRC_MUSIC: {
       // chord with slow amplitude modulation + a little noise: keeps the music detector busy
